@@ -1,4 +1,4 @@
-From LibFtp Require Import Bytes Decimal Reply DataConn Client Client_Proofs Cmdline AppStrings Typed App.
+From LibFtp Require Import Bytes Decimal Reply Endpoint DataConn Client Client_Proofs Login_Proofs Transfer_Proofs Transfer_More Cmdline AppStrings Typed App.
 Local Open Scope N_scope.
 
 (* the verbs that need a connection *)
@@ -103,4 +103,122 @@ Proof.
   intros Hc Hf Hn. cbn [handle]. rewrite Hc, Hf, Hn. cbn [negb].
   destruct (lib _ (ADownload remote (Some []) None)) as [o a3]. intros Ho Hb Hp.
   destruct o; try congruence; rewrite Hp; cbn [snd a_fs]; apply fs_get_remove_same.
+Qed.
+
+(* ---- only get touches local files ---- *)
+Lemma read_line_fs a p : a_fs (snd (read_line a p)) = a_fs a.
+Proof. unfold read_line. destruct (a_in a); reflexivity. Qed.
+
+Lemma lib_res_fs r : a_fs (snd (lib_res r)) = a_fs (snd r).
+Proof. destruct r as [[] ?]; reflexivity. Qed.
+
+Lemma net0_fs a c : a_fs (snd (net0 a c)) = a_fs a.
+Proof. unfold net0. destruct (connected a); cbn [negb]; [|reflexivity]. rewrite lib_res_fs. apply lib_keeps_fs. Qed.
+
+Lemma net1_fs a args p u mk : a_fs (snd (net1 a args p u mk)) = a_fs a.
+Proof.
+  unfold net1. destruct (connected a); cbn [negb]; [|reflexivity].
+  destruct args as [|x [|y r]]; try reflexivity.
+  - pose proof (read_line_fs a p) as R. destruct (read_line a p) as [[l|] a1]; cbn [snd] in *; [|exact R].
+    rewrite lib_res_fs, lib_keeps_fs. exact R.
+  - rewrite lib_res_fs. apply lib_keeps_fs.
+Qed.
+
+Lemma netopt_fs a args u mk : a_fs (snd (netopt a args u mk)) = a_fs a.
+Proof.
+  unfold netopt. destruct (connected a); cbn [negb]; [|reflexivity].
+  destruct args as [|x [|y r]]; try reflexivity; rewrite lib_res_fs; apply lib_keeps_fs.
+Qed.
+
+Lemma login_prompted_fs a u : a_fs (snd (login_prompted a u)) = a_fs a.
+Proof.
+  unfold login_prompted. destruct u as [u|].
+  - pose proof (read_line_fs a p_password) as R. destruct (read_line a p_password) as [[pw|] a2]; cbn [snd] in *; [|exact R].
+    rewrite lib_res_fs, lib_keeps_fs. exact R.
+  - pose proof (read_line_fs a p_username) as R. destruct (read_line a p_username) as [[u|] a1]; cbn [snd] in *; [|exact R].
+    pose proof (read_line_fs a1 p_password) as R2. destruct (read_line a1 p_password) as [[pw|] a2]; cbn [snd] in *; [|congruence].
+    rewrite lib_res_fs, lib_keeps_fs. congruence.
+Qed.
+
+(* C20: get is the only verb that touches the local file system: every other command, with any arguments, against any
+   server, leaves every local file exactly as it was *)
+Theorem only_get_touches_files a c args : c <> C_get -> a_fs (snd (handle a c args)) = a_fs a.
+Proof.
+  intro N. destruct c; try congruence; cbn [handle];
+    try apply net0_fs; try apply net1_fs; try apply netopt_fs; try reflexivity.
+  - (* open *)
+    destruct (connected a); [reflexivity|].
+    assert (G : forall host port a1, a_fs a1 = a_fs a ->
+      a_fs (snd (match lib a1 (AConnect host port None) with
+                 | (OThrow, a2) => (HFtp, a2)
+                 | (OBlocked, a2) => (HBlocked, a2)
+                 | (o, a2) => if replies_positive o then login_prompted a2 None else (HOk, a2)
+                 end)) = a_fs a).
+    { intros host port a1 E. pose proof (lib_keeps_fs a1 (AConnect host port None)) as K.
+      destruct (lib a1 (AConnect host port None)) as [o a2]. cbn [snd] in K.
+      destruct o; cbn [snd]; try congruence.
+      destruct (replies_positive _); [rewrite login_prompted_fs|cbn [snd]]; congruence. }
+    destruct args as [|h [|p [|z r]]]; try reflexivity.
+    + pose proof (read_line_fs a p_hostname) as R. destruct (read_line a p_hostname) as [[hh|] a1]; cbn [snd] in *; [|exact R].
+      apply G. exact R.
+    + apply G. reflexivity.
+    + destruct (try_parse_uint16 p); [apply G; reflexivity|reflexivity].
+  - (* user *)
+    destruct (connected a); cbn [negb]; [|reflexivity].
+    destruct args as [|u [|z r]]; try reflexivity; apply login_prompted_fs.
+  - (* put *)
+    destruct (connected a); cbn [negb]; [|reflexivity].
+    assert (G : forall l r a1, a_fs a1 = a_fs a ->
+      a_fs (snd (match fs_get (a_fs a1) l with
+                 | None => (HCmdline (m_open_pre ++ l ++ m_quote_dot), a1)
+                 | Some content => lib_res (lib a1 (AUpload UStor r (blocks_of (S (length content)) block_size content) (Some [])))
+                 end)) = a_fs a).
+    { intros l r a1 E. destruct (fs_get (a_fs a1) l); [|exact E]. rewrite lib_res_fs, lib_keeps_fs. exact E. }
+    destruct args as [|l [|r [|z t]]]; try reflexivity.
+    + pose proof (read_line_fs a p_local_file) as R. destruct (read_line a p_local_file) as [[l|] a1]; cbn [snd] in *; [|exact R].
+      apply G. exact R.
+    + apply G. reflexivity.
+    + apply G. reflexivity.
+  - (* rename *)
+    destruct (connected a); cbn [negb]; [|reflexivity].
+    destruct args as [|x [|y [|z r]]]; try reflexivity. rewrite lib_res_fs. apply lib_keeps_fs.
+  - (* type *)
+    destruct (connected a); reflexivity.
+  - (* size *)
+    destruct (connected a); cbn [negb]; [|reflexivity].
+    assert (G : forall x a1, a_fs a1 = a_fs a ->
+      a_fs (snd (match lib a1 (ASimple v_SIZE (Some x)) with
+                 | (OThrow, a2) => (HFtp, a2)
+                 | (OBlocked, a2) => (HBlocked, a2)
+                 | (OReturn (RvReply r), a2) => match parse_size r with Some n => (HOk, say a2 [OLine (to_string n ++ m_bytes)]) | None => (HOk, a2) end
+                 | (_, a2) => (HOk, a2)
+                 end)) = a_fs a).
+    { intros x a1 E. pose proof (lib_keeps_fs a1 (ASimple v_SIZE (Some x))) as K.
+      destruct (lib a1 (ASimple v_SIZE (Some x))) as [o a2]. cbn [snd] in K.
+      destruct o as [v| |]; cbn [snd]; try congruence.
+      destruct v; cbn [snd]; try congruence. destruct (parse_size r); cbn [snd say a_fs]; congruence. }
+    destruct args as [|x [|y r]]; try reflexivity.
+    + pose proof (read_line_fs a p_remote_file) as R. destruct (read_line a p_remote_file) as [[x|] a1]; cbn [snd] in *; [|exact R].
+      apply G. exact R.
+    + apply G. reflexivity.
+  - (* exit *)
+    destruct (connected a); [|reflexivity].
+    destruct (step (a_w a) (ADisconnect true)) as [o w1]. reflexivity.
+Qed.
+
+(* C20: after any library error the handler has dropped the connection, so that a following open starts a clean
+   session: the connect that follows reads exactly the new server's greeting and is in step with that server's script,
+   plain, nothing buffered - whatever state the failed call had left behind *)
+Theorem open_after_error_is_clean a c a' h p s srest g :
+  (w_tls_up (snd (step (a_w a) c)) = true -> w_ssl (snd (step (a_w a) c)) = true) ->
+  lib a c = (OThrow, a') ->
+  w_script (a_w a') = s :: srest -> s_reachable s = true -> c_tls (w_cfg (a_w a')) = false ->
+  r_now (s_greeting s) = [RReply g] -> r_close_after (s_greeting s) = false -> code g <> 421 -> code g <> 120 ->
+  exists a'', lib a' (AConnect h p None) = (OReturn (RvReplies [g]), a'') /\
+    insync (a_w a'') (s_reactions s) /\ w_ssl (a_w a'') = false /\ a_fs a'' = a_fs a'.
+Proof.
+  intros Wf L Hscr Hre Htls Gn Gc G421 G120.
+  destruct (error_drops_connection a c a' Wf L) as (Ho & _).
+  destruct (connect_plain (a_w a') h p s srest g Ho Hscr Hre Htls Gn Gc G421 G120) as (w' & St & Is & _ & Sl & _).
+  unfold lib. rewrite St. eexists. split; [reflexivity|]. cbn [a_w a_fs say with_w]. auto.
 Qed.
